@@ -28,6 +28,15 @@ def build(ch):
     cls = {}
     T = m.type_index
     m.imports.append((b'env', b'trace', 'func', T((I32,), ())))
+    # import module names: one name for everything, or names that are related as strings (prefixes of each other, equal up to
+    # case or a trailing character, the empty name) in any order - the resolver is asked for exactly the declared pair
+    MODS = (b'env', b'env2', b'en', b'environment', b'e', b'env_', b'Env', b'host', b'hostile')
+    related = ch.below(3) == 0
+
+    def imod():
+        return ch.pick(MODS) if related else b'env'
+    if related:
+        cls['related_import_module_names'] = 1
     imp_mem = ch.below(3) == 0
     imp_tab = ch.below(3) == 0
     nig = ch.below(3)
@@ -41,7 +50,7 @@ def build(ch):
     mem_extra = tab_extra = 0
     if imp_mem:
         mdesc = (mn, ch.pick((mn, mn + 2, mn + 5)), True) if shared_mem else (mn, ch.pick((None, mn, mn + 2)), False)
-        m.imports.append((b'env', b'mem', 'memory', mdesc))
+        m.imports.append((imod(), b'mem', 'memory', mdesc))
         mem_extra = min(ch.pick((0, 0, 1, 2)), (mdesc[1] - mn) if mdesc[1] is not None else 2)
         if mem_extra:
             cls['imported_memory_larger_than_declared'] = 1
@@ -52,7 +61,7 @@ def build(ch):
     tsize = 8 + ch.below(8)
     if imp_tab:
         tab_extra = ch.pick((0, 0, 3, 8))
-        m.imports.append((b'env', b'tab', 'table', (tsize, None)))
+        m.imports.append((imod(), b'tab', 'table', (tsize, None)))
         if tab_extra:
             cls['imported_table_larger_than_declared'] = 1
     elif has_tab:
@@ -60,7 +69,7 @@ def build(ch):
     igt = []
     for g in range(nig):
         t = I32 if g == 0 else ch.pick((I32, I64, F32, F64))
-        m.imports.append((b'env', b'ig%d' % g, 'global', (t, False)))
+        m.imports.append((imod(), b'ig%d' % g, 'global', (t, False)))
         igt.append(t)
     # defined globals
     ng = ch.below(5)
